@@ -278,6 +278,17 @@ static void case_mpz_misc(ByteSource& in, CaseInfo& ci) {
         bool bigd = in.flag(); size_t big = (size_t)INV_DIV_QR_THRESHOLD + (size_t)in.range(0, 60), small = (size_t)in.range(7, 24); if (big > 6000) big = 6000;
         Limbs dl = limbs_nz(in, bigd ? big : small), ql = limbs_nz(in, bigd ? (size_t)in.range(1, 8) : big); if (in.flag()) dl[0] |= 1; if (dl[0] == 0) dl[0] = 2;
         c.d = Int::from_limbs(dl.data(), dl.size()); c.q = Int::from_limbs(ql.data(), ql.size()); if (in.chance(170)) { c.q = ref::shl(c.q, 64 * (uint64_t)in.range(1, 3)); ci.label("divexact:inverse_branch_quotient_low_limbs_zero"); } else ci.label("divexact:inverse_branch"); }
+      else if (in.chance(40)) {   // the Hensel branch of mpn_divexact with a quotient of several divisor-sized blocks (mpn_dc_bdiv_q: borrow between the blocks), divisor at the divide-and-conquer threshold and above
+        size_t dn = (size_t)DC_BDIV_Q_THRESHOLD + (size_t)in.range(0, 40), qn = dn * (size_t)in.range(3, 30) + (size_t)in.range(0, dn - 1); if (qn > 1500) qn = 1500 - (size_t)in.range(0, 50);
+        Limbs dl = limbs_nz(in, dn, in.flag() ? S_RUNS : S_UNIFORM), ql = limbs_nz(in, qn, (unsigned)in.pick({2, 2, 1}) == 0 ? S_UNIFORM : S_RUNS); if (in.flag()) dl[0] |= 1;
+        if (in.chance(100)) { size_t a = (size_t)in.range(1, qn - 1), b2 = (size_t)in.range(a, qn - 1); for (size_t i = a; i < b2; i++) ql[i] = in.flag() ? 0 : ~0ull; }   /* a long run of zero or all-ones limbs inside the quotient */
+        if (in.chance(110)) { size_t low = (size_t)in.range(1, std::min<size_t>(qn - 1, 2 * dn)); bool ones = in.flag(); for (size_t i = low; i + 1 < qn; i++) ql[i] = ones ? ~0ull : 0; ql[qn - 1] = ones ? ~0ull : (in.flag() ? 1 : ql[qn - 1]); ci.label("divexact:quotient_top_and_low_limbs_only"); }   /* B^k +- small: every block above the lowest ones is zero (or all ones) */
+        c.d = Int::from_limbs(dl.data(), dn); c.q = Int::from_limbs(ql.data(), qn); ci.label("divexact:hensel_many_blocks"); }
+      else if (in.chance(44)) {   // a dividend that is zero between its top few limbs and its lowest ones: N = T*B^h + L with L = -T*B^h mod D, so that D divides N; the limbs of N that a
+        // Hensel (low to high) division has not reached yet are all zero, and a borrow from the processed part ripples through all of them
+        size_t dn = (size_t)in.range(7, 60), t = (size_t)in.range(1, dn - 1), h = dn * (size_t)in.range(2, 34) + (size_t)in.range(0, dn); Limbs dl = limbs_nz(in, dn), tl = limbs_nz(in, t); if (in.flag()) dl[0] |= 1;
+        Int Dd = Int::from_limbs(dl.data(), dn), T = ref::shl(Int::from_limbs(tl.data(), t), 64 * h); Int r = ref::tmod(T, Dd); Int Nn = r.is_zero() ? T : T + (Dd - r); Int qq, rr; ref::tdivrem(Nn, Dd, qq, rr);
+        if (rr.is_zero()) { c.d = Dd; c.q = qq; ci.label("divexact:dividend_zero_between_top_and_low_limbs"); } }
       Int D = in.flag() ? -c.d : c.d; Int Q = in.flag() ? -c.q : c.q; Int N = Q * D;   // exact by construction
       mpz_from_int(z.a, N); mpz_from_int(z.b, D); unsigned al = in.pick({3, 1, 1}); mpz_ptr o = al == 0 ? z.c : al == 1 ? z.a : z.b; ci.nontrivial = c.d.size() >= 2 || c.q.size() >= 2;
       ci.d("mpz_divexact alias=%u ", al); DESC(ci, "n=" + show(N, 64) + " d=" + show(D, 64));
